@@ -167,7 +167,7 @@ def r_metadata(ctx):
         ctx.check(g == wantd, rule, 'VersionCodec/decode', d.loc(), 'reads %s' % wantd, 'VersionCodec::bytes_decode reads %s; reference %s' % (g, wantd))
     # RoaringBitmapCodec
     e = schema.find_codec(F, 'BytesEncode', 'roaring::RoaringBitmapCodec')
-    if e is not None:
+    if ctx.need(e is not None, rule, 'RoaringBitmapCodec encoder'):
         enc, unk = schema.encoder_rows(F, e)
         got = [[tuple(r) for r in rows] for rows in enc.values()]
         ctx.check(all(len(g) == 1 and g[0][1:] == ('roaring', 'portable') for g in got) and not unk, rule, 'RoaringBitmapCodec/encode', e.loc(),
